@@ -187,3 +187,35 @@ func VerifC18_ConcurrentNext3() {
 	zz.Assert(tc.next() == seed+7, "exactly six IDs were issued")
 	zz.Reach("done")
 }
+
+// VerifC18_StoredChannelsDoNotSteerTheCounter: a manager that starts on a store already holding
+// a channel - in particular one whose transfer ID was chosen by a REMOTE initiator, any 64-bit
+// value - still issues IDs that come from its own clock-seeded counter: above the wall clock at
+// its creation, strictly increasing, never wrapping to a value an earlier manager may have used.
+func VerifC18_StoredChannelsDoNotSteerTheCounter() {
+	before := time.Now()
+	st := channels.VerifArbitraryRecord("st", 1, 0, true)
+	if st.SelfPeer == st.Initiator {
+		// IDs this node issued earlier are below the present clock (the stated wall-clock assumption)
+		zz.Assume(uint64(st.TransferID) < uint64(before.UnixNano()))
+	}
+	f := verifUnstartedManager(st.SelfPeer, nil)
+	stored := channels.VerifChid(&st)
+	f.g.VerifInstall(stored, &st)
+	zz.Assert(f.m.Start(context.Background()) == nil, "Start succeeds")
+	zz.Settle()
+	other := peer.ID(zz.String("other"))
+	zz.Assume(other != st.SelfPeer)
+	v := datatransfer.TypedVoucher{Voucher: zz.Node("v"), Type: datatransfer.TypeIdentifier(zz.String("vt"))}
+	base := zz.Cid("base")
+	zz.Assume(base.Defined())
+	ctx := context.Background()
+	id1, e1 := f.m.OpenPushDataChannel(ctx, other, v, base, zz.Node("sel"))
+	id2, e2 := f.m.OpenPullDataChannel(ctx, other, v, base, zz.Node("sel"))
+	zz.Assert(e1 == nil && e2 == nil, "opens succeed whatever the store already holds")
+	zz.Assert(uint64(id1.ID) > uint64(before.UnixNano()), "the first ID is above the wall clock at the manager's creation")
+	zz.Assert(id2.ID > id1.ID, "IDs keep increasing")
+	if st.SelfPeer == st.Responder {
+		zz.Reach("stored channel with a remote-chosen ID")
+	}
+}
